@@ -4,8 +4,13 @@ import json, re
 from refinterp import Renderer, Interp, show_val
 
 
+import os
+THOROUGH_SCALE = int(os.environ.get('VERIF_THOROUGH_SCALE', '4'))
+
+
 def count(tier, quick, thorough):
-    return quick if tier == 'quick' else thorough
+    """number of generated cases of one family: the thorough tier multiplies its base count by VERIF_THOROUGH_SCALE (default 4)"""
+    return quick if tier == 'quick' else thorough * THOROUGH_SCALE
 
 
 def fail(idx, msg, sig):
